@@ -67,6 +67,15 @@ def _with_max_point(r, pts, ddesc):
     return impl.TimeRecurrence(**kw)
 
 
+def _with_min_point(r, pts, ddesc):
+    """An unbounded duration/end recurrence with min_point set inside the series (one second before its 3rd member,
+    counting back from the end): iteration stops there, which makes it a bounded, completely known descending series."""
+    if len(pts) < 4 or r.format_number != 4 or r.repetitions is not None:
+        return None
+    return impl.TimeRecurrence(repetitions=None, duration=r.duration, end_point=r.end_point,
+                               min_point=pts[2] - impl.Duration(seconds=1))
+
+
 def check_rec(ctx, kind, c, desc):
     fmt, n, ddesc = desc["fmt"], desc["n"], desc["dur"]
     nominal, zero = recur.is_nominal(ddesc), recur.is_zero(ddesc)
@@ -88,6 +97,14 @@ def check_rec(ctx, kind, c, desc):
             n = n_eff
             fmt = 3 if fmt == 1 else fmt
             base_sig = dict(base_sig, max_point=True)
+        if desc.get("min_point"):
+            r = _with_min_point(r, pts, ddesc)
+            if r is None:
+                return
+            pts = recur.take(r, KMEM)
+            n_eff = len(pts)
+            n = n_eff
+            base_sig = dict(base_sig, min_point=True)
     except BaseException:
         ctx.count("recurrences_not_buildable_or_iterable(C12's business)")
         return
@@ -102,7 +119,7 @@ def check_rec(ctx, kind, c, desc):
     ctx.traces += 1
     insts = [i[7] for i in infos]
     bounded = n_eff is not None
-    descending = fmt == 4 and not bounded
+    descending = fmt == 4 and desc["n"] is None
     rep, z = desc["anchor"]["rep"], desc["anchor"]["tz"]
     complete = bounded  # do we know the whole member set?
 
@@ -223,7 +240,7 @@ def check_rec(ctx, kind, c, desc):
                 ctx.violation("membership", dict(sig, member=want), case, want, got)
             ctx.outcome("membership", want)
         # get_first_after: recurrences that have a start point, whole-second probes
-        if fmt == 4 and not bounded:
+        if fmt == 4 and desc["n"] is None:   # no start point: outside the stated quantifier
             continue
         later = sorted(x for x in insts if x > it)
         if later:
@@ -269,6 +286,8 @@ def run_unit(unit, ctx):
                 check_rec(ctx, kind, c, desc)
                 if n in (None, 7) and fmt in (3, 4) and not recur.is_zero(d):
                     check_rec(ctx, kind, c, dict(desc, max_point=True))
+                if n is None and fmt == 4 and not recur.is_zero(d):
+                    check_rec(ctx, kind, c, dict(desc, min_point=True))
 
 
 def replay_case(case, ctx):
